@@ -58,7 +58,18 @@ def run(rebound, gen):
         for variant in (0, 1, 2, 3):
             for how in ("copy", "pickle", "file", "archive"):
                 src = build(rebound, variant); twin = build(rebound, variant)
+                if variant in (0, 2):      # a fixed-size pointer field (display_settings) in the source
+                    import c05_archive
+                    c05_archive.display_settings_on(rebound, gen, src); c05_archive.display_settings_on(rebound, gen, twin)
                 cp = derive(rebound, gen, src, how)
+                if variant in (0, 2):
+                    ps, pc = c05_archive._ds_ptr(rebound, gen, src), c05_archive._ds_ptr(rebound, gen, cp)
+                    n += 1
+                    if pc.value is None or pc.value == ps.value:
+                        fails.append({"variant": variant, "how": how, "key": "shared-heap:display_settings",
+                                      "how_found": "display_settings of the derived simulation is %s, of the source %s" % (pc.value, ps.value)})
+                        if pc.value == ps.value:
+                            pc.value = None          # avoid the double free so that the run can report
                 tag = {"variant": variant, "how": how, "N_var_config": int(src.N_var_config)}
                 # raw back pointers
                 want = ctypes.addressof(cp)
